@@ -45,6 +45,10 @@ def make_scenario(seed_tuple):
         calls.append(dict(kind=c, n_batches=int(rng.choice([1, 2, 3, 7])), n_linear=int(rng.choice([1, 3])),
                           size=int(rng.choice([20, 100])), n_req=int(rng.choice([1, 3]))))
     api_seed = int(rng.integers(0, 2 ** 31))
+    # every scenario truncates one in-memory run (max_posterior_samples below the number accepted): which rows are kept is
+    # part of the output and must not involve any other source of randomness
+    calls.insert(int(rng.integers(0, len(calls) + 1)), dict(kind="rejection-mem-truncated", n_batches=1, n_linear=int(rng.choice([1, 3])),
+                                                           size=20, n_req=1))
     if rng.random() < 0.5:
         # the same request a second time on the same object (anything remembered from the first must not answer the second)
         byc = [c for c in calls if c["kind"].startswith("rejection-int")]
@@ -93,7 +97,10 @@ def run_scenario(seed_tuple, tmpdir, pool_kind=0, api_seed_shift=0, pool=None, r
             elif kind == "prior-sample-linear":
                 r = pb.prior.sample(size=c["size"], generate_linear=True, rng=np.random.default_rng(api_seed + 2000 + k))
             elif kind == "rejection-obj-mem":
-                r = joker.rejection_sample(pb.data, pb.lib, n_linear_samples=c["n_linear"], in_memory=True)
+                r = joker.rejection_sample(pb.data, pb.lib, n_linear_samples=c["n_linear"], in_memory=True,
+                                           **({"max_posterior_samples": 2} if k % 2 else {}))
+            elif kind == "rejection-mem-truncated":
+                r = joker.rejection_sample(pb.data, pb.lib, n_linear_samples=c["n_linear"], in_memory=True, max_posterior_samples=2)
             elif kind == "rejection-obj-cache":
                 r = joker.rejection_sample(pb.data, pb.lib, n_linear_samples=c["n_linear"], n_batches=c["n_batches"])
             elif kind == "rejection-file":
